@@ -24,10 +24,49 @@ use super::*;
 ///    the first letter must be uppercase.
 /// 2. If a terminal variant name contains one or more letters,
 ///    the first letter must be uppercase.
-pub fn get_terminal_enum(file: &File) -> Result<validated::TerminalEnum, KikiErr> {
+pub fn get_terminal_enum(file: &File) -> /*@[*/(r: /*@]*/Result<validated::TerminalEnum, KikiErr>/*@[*/)/*@]*/
+    //@[ C10 get_terminal_enum: exactly one terminal declaration, its name and its variant names obey the capitalisation rule
+    ensures match r {
+        Ok(v) => sel_terminals(file.items@).len() == 1 && terminal_def_ok(sel_terminals(file.items@)[0]) && terminal_def_view(sel_terminals(file.items@)[0], v),
+        Err(e) => err_truthful(*file, e),
+    },
+    //@]
+{
     let unvalidated = get_unvalidated_terminal_enum(file)?;
+    //@[ proof
+    proof {
+        let items = file.items@;
+        // the one terminal declaration is an item of the file
+        lemma_sel_terminals_in(items, 0);
+        let i = choose|i: int| 0 <= i < items.len() && (#[trigger] items[i]) is Terminal && items[i]->Terminal_0 == sel_terminals(items)[0];
+        assert forall|e: KikiErr| #[trigger] terminal_def_err(*unvalidated, e) implies err_truthful(*file, e) by {
+            assert(items[i] is Terminal);
+        }
+    }
+    //@]
     validate_terminal_def(unvalidated)
 }
+
+//@[ C10 ghost: capitalisation of a terminal declaration, the error that reports its violation, and the validated view
+pub open spec fn terminal_def_ok(te: TerminalEnum) -> bool {
+    upper_ok(te.name.name@) && forall|i: int| 0 <= i < te.variants@.len() ==> upper_ok((#[trigger] te.variants@[i]).name.name@)
+}
+pub open spec fn terminal_def_err(te: TerminalEnum, e: KikiErr) -> bool {
+    e is SymbolOrTerminalEnumNameFirstLetterNotUppercase && ({
+        let p = e->SymbolOrTerminalEnumNameFirstLetterNotUppercase_0;
+        (te.name.position == p && !upper_ok(te.name.name@)) || bad_upper_in_terminal_variants(te.variants@, p)
+    })
+}
+pub open spec fn terminal_variant_view(v: TerminalEnumVariant, o: validated::TerminalVariant) -> bool {
+    o.dollarless_name@ == v.name.name@.filter(|c: char| c != '$')
+}
+pub open spec fn terminal_def_view(te: TerminalEnum, o: validated::TerminalEnum) -> bool {
+    &&& o.name@ == te.name.name@
+    &&& o.attributes@ == te.attributes@
+    &&& o.variants@.len() == te.variants@.len()
+    &&& forall|i: int| 0 <= i < te.variants@.len() ==> terminal_variant_view(#[trigger] te.variants@[i], o.variants@[i])
+}
+//@]
 
 /// This function validates that:
 /// 1. There is exactly one `terminal` statement.
@@ -41,7 +80,14 @@ fn __vx_select_terminals<'a>(file: &'a File) -> (r: Vec<&'a TerminalEnum>)
 { /*@orig T13_select_terminals*/ }
 //@]
 
-pub fn get_unvalidated_terminal_enum(file: &File) -> Result<&TerminalEnum, KikiErr> {
+pub fn get_unvalidated_terminal_enum(file: &File) -> /*@[*/(r: /*@]*/Result<&TerminalEnum, KikiErr>/*@[*/)/*@]*/
+    //@[ C10 get_unvalidated_terminal_enum: exactly one terminal declaration, else the error lists what is there
+    ensures match r {
+        Ok(t) => sel_terminals(file.items@).len() == 1 && *t == sel_terminals(file.items@)[0],
+        Err(e) => err_truthful(*file, e) && (e is NoTerminalEnum || e is MultipleTerminalEnums),
+    },
+    //@]
+{
     let terminals: Vec<&TerminalEnum> = /*@{ T13_select_terminals*//*@- file
         .items
         .iter()
@@ -56,14 +102,24 @@ pub fn get_unvalidated_terminal_enum(file: &File) -> Result<&TerminalEnum, KikiE
     }
 
     if terminals.len() > 1 {
-        let positions = terminals.iter().map(|t| t.name.position).collect();
+        let positions/*@[*/: Vec<ByteIndex>/*@]*/ = terminals.iter().map(|t/*@[*/: &&TerminalEnum/*@]*/| /*@[*/-> (o: ByteIndex) ensures o == t.name.position { /*@]*/t.name.position/*@[*/ }/*@]*/).collect();
+        //@[ proof
+        proof { assert(positions@ =~= sel_terminals(file.items@).map_values(|t: TerminalEnum| t.name.position)); }
+        //@]
         return Err(KikiErr::MultipleTerminalEnums(positions));
     }
 
     Ok(terminals[0])
 }
 
-fn validate_terminal_def(def: &TerminalEnum) -> Result<validated::TerminalEnum, KikiErr> {
+fn validate_terminal_def(def: &TerminalEnum) -> /*@[*/(r: /*@]*/Result<validated::TerminalEnum, KikiErr>/*@[*/)/*@]*/
+    //@[ C10 validate_terminal_def
+    ensures match r {
+        Ok(v) => terminal_def_ok(*def) && terminal_def_view(*def, v),
+        Err(e) => terminal_def_err(*def, e),
+    },
+    //@]
+{
     let attributes = def.attributes.clone();
     let name = validate_ident_uppercase_start(&def.name)?.to_string();
     let variants = validate_terminal_variants(def)?;
@@ -76,18 +132,33 @@ fn validate_terminal_def(def: &TerminalEnum) -> Result<validated::TerminalEnum, 
 
 fn validate_terminal_variants(
     def: &TerminalEnum,
-) -> Result<Vec<validated::TerminalVariant>, KikiErr> {
-    let variants = def
+) -> /*@[*/(r: /*@]*/Result<Vec<validated::TerminalVariant>, KikiErr>/*@[*/)/*@]*/
+    //@[ C10 validate_terminal_variants: all variant names are properly capitalised, or the error points at one that is not
+    ensures match r {
+        Ok(v) => v@.len() == def.variants@.len()
+            && forall|i: int| 0 <= i < def.variants@.len() ==> upper_ok((#[trigger] def.variants@[i]).name.name@) && terminal_variant_view(def.variants@[i], v@[i]),
+        Err(e) => e is SymbolOrTerminalEnumNameFirstLetterNotUppercase && bad_upper_in_terminal_variants(def.variants@, e->SymbolOrTerminalEnumNameFirstLetterNotUppercase_0),
+    },
+    //@]
+{
+    let variants = /*@{ T16_open*//*@- def
         .variants
         .iter()
-        .map(validate_variant_capitalization)
-        .collect::<Result<Vec<_>, _>>()?;
+        .map( *//*@|*/__vx_try_map_collect(&def.variants, /*@}*/validate_variant_capitalization/*@{ T16_close*//*@- )
+        .collect::<Result<Vec<_>, _>>() *//*@|*/)/*@}*/?;
     Ok(variants)
 }
 
 fn validate_variant_capitalization(
     variant: &TerminalEnumVariant,
-) -> Result<validated::TerminalVariant, KikiErr> {
+) -> /*@[*/(r: /*@]*/Result<validated::TerminalVariant, KikiErr>/*@[*/)/*@]*/
+    //@[ C10 validate_variant_capitalization
+    ensures match r {
+        Ok(v) => upper_ok(variant.name.name@) && terminal_variant_view(*variant, v),
+        Err(e) => e == KikiErr::SymbolOrTerminalEnumNameFirstLetterNotUppercase(variant.name.dollarless_position) && !upper_ok(variant.name.name@),
+    },
+    //@]
+{
     let validated_name = validate_terminal_ident_uppercase_start(&variant.name)?;
     let dollarless_name = DollarlessTerminalName::remove_dollars(validated_name);
     let type_ = type_to_string::type_to_string(&variant.type_);
